@@ -37,7 +37,8 @@ META = {
              ' I/O call of the documented command-line steps x errno, a su'
              'ccess status requires the fault-free destination.'
              " Round 12: http_faults with per-shard layouts, outdated legacy files and the statuses 400/401/410/429/502."
-             " Round 13: write_handled_close - the caller handles the reported failure of one chunk, stores the others and closes; accepted chunks must be there, the refused one absent, complete or detectably invalid."),
+             " Round 13: write_handled_close - the caller handles the reported failure of one chunk, stores the others and closes; accepted chunks must be there, the refused one absent, complete or detectably invalid."
+             " http_faults: after a reported failure the same accessor object is asked again without a fault (the stored bytes or an I/O error)."),
     "trusted_base": ["vlib/faultfs.py: crash model = process killed between "
                      "(or inside) application-level write calls, earlier "
                      "closed files intact; self-checked on every scenario by "
@@ -594,9 +595,36 @@ def check_http(ctx, case):
         with httpd.StaticServer(root, rewrite=False) as srv:
             url = srv.url + "ds"
 
+            held = {}
+
             def operation():
                 acc = accessor.get_accessor_for_url(url)
+                held["acc"] = acc
                 return acc.fetch_chunk(scm.KEY, cc)
+
+            def retry_same_accessor(what):
+                """A caller that handles the failure and asks the SAME
+                accessor object again, once the trouble is over: the stored
+                bytes or an I/O error, never other bytes or an internal
+                error."""
+                try:
+                    again = held["acc"].fetch_chunk(scm.KEY, cc)
+                except ok_types:
+                    return
+                except Exception as e:    # noqa
+                    ctx.fail("%s, then the same accessor asked again without "
+                             "any fault: %s (%s) instead of the chunk or a "
+                             "data-access / I/O error (%s dataset)" % (
+                                 what, type(e).__name__, str(e)[:80],
+                                 case["kind"]))
+                if again != truth[pos]:
+                    ctx.fail("%s, then the same accessor asked again without "
+                             "any fault: fetch_chunk returned %d bytes that "
+                             "differ from the stored ones (%s dataset)" % (
+                                 what, len(again), case["kind"]))
+            ok_types = (accessor.DataAccessError,) if \
+                case["kind"] == "plain" else (accessor.DataAccessError,
+                                              OSError)
             with faultfs.Layer([root], "trace", with_requests=True) as L:
                 good = operation()
             if good != truth[pos]:
@@ -633,6 +661,8 @@ def check_http(ctx, case):
                                  k, L.calls[k][0], L.calls[k][1],
                                  type(exc).__name__, str(exc)[:100],
                                  case["kind"]))
+                retry_same_accessor("connection reset at request %d (%s %s)"
+                                    % (k, L.calls[k][0], L.calls[k][1]))
             # HTTP error statuses at every request of the operation
             nreq = len(idxs)
             for k in range(nreq):
@@ -659,6 +689,11 @@ def check_http(ctx, case):
                                      "returned wrong bytes (%s dataset)" % (
                                          status, k, case["kind"]))
                         continue
+                    if isinstance(exc, ok_types) and status in (
+                            "403", "404", "500", "429"):
+                        retry_same_accessor("HTTP %s at request %d (%s %s)" % (
+                            status, k, calls[k][0],
+                            calls[k][1].split("/ds/")[-1]))
                     if not isinstance(exc, ok_types):
                         ctx.fail("HTTP %s at request %d of %d (%s %s) "
                                  "surfaces as %s (%s) instead of a data-"
